@@ -54,6 +54,9 @@ func newCfgWorld() *cfgWorld {
 }
 
 func (w *cfgWorld) value(setting, tag string) string {
+	if tag == "E" {
+		return ""
+	}
 	switch setting {
 	case "root":
 		return map[string]string{"A": w.dirA, "B": w.dirB, "X": filepath.Join(w.base, "does-not-exist")}[tag]
@@ -290,6 +293,12 @@ func c19Stream(o *out, r *rng, thorough bool) {
 		if s == "client-whitelist" || s == "max-clients" || s == "root" || s == "read-timeout" {
 			for _, ch := range channels {
 				runs = append(runs, append(base(s), cfgAssign{s, ch, "X"}))
+			}
+		}
+		// a blank value is malformed too (tag E): it must not be taken for "not given"
+		if s == "client-whitelist" || s == "max-clients" || s == "read-timeout" {
+			for _, ch := range channels {
+				runs = append(runs, append(base(s), cfgAssign{s, ch, "E"}))
 			}
 		}
 	}
